@@ -164,6 +164,10 @@ def worker(job):
                     need = max(need, built, tmpl + len(enc(ln)) + 1)
                 opts = ["-s", str(need + rng.choice([1, 1, 2, 3, 8]))] + opts
                 st.inc("replace_mode_runs_with_a_size_limit_that_just_fits")
+                if rng.random() < 0.5:
+                    # -x (stop when something does not fit) changes nothing when every line fits on its own: lines are never added up
+                    opts.insert(rng.choice([0, len(opts)]), "-x")
+                    st.inc("replace_mode_runs_with_x_and_a_size_limit_that_just_fits")
             r = xref.run_xargs(wd, opts, [a.encode() for a in initial], data, script=script)
             st.inc("evaluations")
             st.add("distinct", (tuple(opts), tuple(initial), data))
